@@ -93,8 +93,11 @@ def _roll(c, cfg):
             br.rebalance(reb)
         except EndOfEpisodeError:
             c.out_of_scope("ruin")
-        c.prove("C11:allocation-keyed-by-the-lead", list(reb.allocation.keys()) == [new],
-                info=[k.symbol for k in reb.allocation])
+        keys = list(reb.allocation.keys())
+        c.prove("C11:allocation-keyed-by-the-lead", len(keys) == 1 and keys[0] is new,
+                info=[type(k).__name__ + ":" + k.symbol for k in keys])
+        c.prove("C11:positions-are-booked-on-listed-contracts-not-on-the-chain",
+                all(k is old or k is new or not isinstance(k, FutureChain) for k in br._holdings_quantity))
         c.prove_eq("C11:old-lead-closed-whatever-the-threshold", br._holdings_quantity.get(old, 0.0), 0.0)
         c.prove_eq("C11:old-lead-margin-released", br._holdings_margins.get(old, 0.0), 0.0)
         if not cfg.get("threshold"):
@@ -102,8 +105,8 @@ def _roll(c, cfg):
             c.prove_eq("C11:target-re-established-in-the-new-lead", q * new.multiplier * px, w * nlv_pre,
                        scale=(nlv_pre,))
         c.prove("C11:no-trade-in-any-other-listed-contract",
-                all(t.contract is old or t.contract is new or t.contract == old or t.contract == new
-                    for t in reb.trades))
+                all(t.contract is old or t.contract is new for t in reb.trades),
+                info=[type(t.contract).__name__ + ":" + t.contract.symbol for t in reb.trades])
         c.record("trades", [[t.contract.symbol, t.quantity] for t in reb.trades])
         c.reached("roll")
     finally:
